@@ -492,8 +492,14 @@ func (s *Server) Put(gStream protoobject.ObjectService_PutServer) error {
 			op, verb, verbV1 = acl.OpObjectDelete, sessionv2.VerbObjectDelete, session.VerbObjectDelete
 		}
 
+		sessionObjID := objID
+		if tombstone {
+			// user can't predict tomb's ID, session can't be bound to it
+			sessionObjID = oid.ID{}
+		}
+
 		// another error variable to not shadow err used in defer
-		reqMD, metaHdrErr := s.handleRequestMetaHeader(req.MetaHeader, verb, verbV1, cnrID, objID)
+		reqMD, metaHdrErr := s.handleRequestMetaHeader(req.MetaHeader, verb, verbV1, cnrID, sessionObjID)
 		if metaHdrErr != nil {
 			err = metaHdrErr // defer
 			return s.sendStatusPutResponse(gStream, err, reqFirst)
